@@ -323,20 +323,29 @@ class InterfaceBase(NameAndModuleComparisonMixin, SpecificationBasePy):
             self._v_cached_hash = hash((self.__name__, self.__module__))
         return self._v_cached_hash
 
+    def _same_key(self, other):
+        # Equality of the ``(__name__, __module__)`` keys, without
+        # ordering them: a name can be None (``Element`` takes a name
+        # containing a blank for a docstring), and None and str do not
+        # order, but they compare unequal, as in the C implementation.
+        if other is self:
+            return True
+        if other is None:
+            return False
+        try:
+            n2 = (other.__name__, other.__module__)
+        except AttributeError:
+            return NotImplemented
+        return (self.__name__, self.__module__) == n2
+
     def __eq__(self, other):
-        c = self._compare(other)
-        if c is NotImplemented:
-            return c
-        return c == 0
+        return self._same_key(other)
 
     def __ne__(self, other):
-        if other is self:
-            return False
-
-        c = self._compare(other)
+        c = self._same_key(other)
         if c is NotImplemented:
             return c
-        return c != 0
+        return not c
 
 
 adapter_hooks = _use_c_impl([], 'adapter_hooks')
